@@ -89,7 +89,8 @@ REQUIRED = [
     (DT, "HyperbolicDrawing.draw_geodesic", "arc = Arc(center, radius * 2, radius * 2,"),
     (DT, "HyperbolicDrawing.draw_geodesic", "lines = LineCollection(seglist.endpoint_coords(self.model),"),
     (DT, "HyperbolicDrawing.draw_polygon", "polys = PolyCollection(polylist.coords(\"klein\"), **default_kwargs)"),
-    (DT, "HyperbolicDrawing.draw_horosphere", "EllipseCollection(circle_radii * 2, circle_radii * 2,"),
+    (DT, "HyperbolicDrawing.draw_horosphere", "self.ax.add_collection("),
+    (DT, "HyperbolicDrawing.draw_horosphere", "h_rect = Rectangle((self.left_infinity, height),"),
     (DT, "HyperbolicDrawing.draw_horoarc", "arc = Arc(center, radius * 2, radius * 2,"),
     (DT, "HyperbolicDrawing.preprocess_object", "raise GeometryError("),
     (DT, "ProjectiveDrawing.preprocess_object", "raise GeometryError("),
@@ -324,6 +325,9 @@ def setup(run):
                     continue
             rep = rd.check_polygon_path(patch.get_path(), k, model, thr * (1 - THRESH_BAND) / (1 - 1e-6),
                                         view if model == "halfspace" else None)
+            if rep.ill_conditioned:
+                m_poly.skip("node tolerance comparable to an edge's length (short edge of large radius)")
+                continue
             for name, cnt in rep.branches.items():
                 arm(run, "edge/" + ("straight" if name.startswith("straight") else name), cnt)
                 run.note_class("polygon-edge", model, name)
